@@ -1,28 +1,55 @@
-"""C03 — only keys that trusted metadata binds to the claimed issuer validate a signature."""
+"""C03 — only keys that trusted metadata binds to the claimed issuer validate a signature.
+
+A case is the whole life of ONE receiver (Saml2Client or Server): the metadata it starts with and a list
+of operations -- verifications of signed messages, metadata reloads, failed reloads -- in order.  The old
+single-shot cells are lives with one verification.  Observed per verification: accept/reject AND every
+certificate handed to a verifier (the file named on the xmlsec1 command line; for detached signatures the
+public key that reaches the RSA primitive)."""
+import base64
+import copy
 import hashlib
+import itertools
+import json
 
 from harness import env, fixtures, render, spaccept, world
 from harness.common import Raw, cq, cq_opt
 
 PID = "C03"
 PARALLEL = 12
-IMPORTS = "From Verif Require Import C03.Model C03.Spec C03.Proofs C03.Corr."
+IMPORTS_BASE = "From Verif Require Import C03.Model C03.Spec C03.Proofs C03.Corr."
 CASE_TYPE = "C03.Corr.case"
 RUNNER = "C03.Corr.run"
-FINDING_CLASSES = {}
+FINDING_CLASSES = {1: "C03-F1", 2: "C03-F2"}
 EXHAUSTIVE = True
-RULE = ("complete product: signer key {issuer signing, issuer rotated signing, issuer encryption-only, other member, "
+RULE = ("(A) complete product: signer key {issuer signing, issuer rotated signing, issuer encryption-only, other member, "
         "receiver's own, attacker}(6) x claimed issuer {that entity, other member, unknown}(3) x KeyInfo {none, signer cert, "
         "victim cert, bare RSAKeyValue}(4) x only_use_keys_in_metadata(2) x kind {Response, Assertion, AuthnRequest/POST, "
         "LogoutRequest/SOAP, detached Redirect}(5) = 720 cells, plus the same cells with content altered after signing for "
-        "the genuine-key rows.  Real RSA, real metadata; observed: accept/reject AND the certificates handed to the "
-        "xmlsec1 stand-in (fingerprints from its side log).  non-trivial = every cell except (issuer key, that entity, no "
-        "KeyInfo, default flag)")
-TRUSTED = ["xmlsec1 stand-in restricted to --pubkey-cert-pem as invoked by the unmodified CryptoBackendXmlSec1",
+        "the genuine-key rows.  (B) metadata shapes of the claimed issuer: every list of <= 2 KeyDescriptors over {use "
+        "signing/none/encryption} x {issuer key, rotated key, the RECEIVER's own key, octets that are no certificate "
+        "(truncated DER, random bytes)} (7 items, 57 shapes) x signer {issuer, rotated, receiver's own, attacker} x the 5 kinds (pairs of KeyDescriptors: Response, AuthnRequest/POST, Redirect in the quick tier); "
+        "the shapes without a signing key again with only_use_keys_in_metadata off and the signer's certificate embedded; "
+        "seeded random shapes with 2 role descriptors (SSO + AttributeAuthority, either document order), 1-3 keys each, "
+        "several X509Data in one KeyDescriptor, a certificate shared with another member; KeyDescriptors WITHOUT certificate "
+        "(empty X509Certificate, X509SubjectName only, KeyName only) x use x {alone, before, after a good key} x fallback on/off.  (C) lives of one receiver: for every "
+        "ordered pair of 6 metadata generations (default / signing key withdrawn / issuer removed / key demoted to "
+        "encryption-only / keys swapped between two members / unknown issuer added) x 6 receiver kinds (SP Response, SP "
+        "Assertion, IdP POST, IdP SOAP, IdP Redirect, IdP mixed): probe every (signer, claimed issuer) pair, reload "
+        "(Entity.reload_metadata or MetadataStore.reload), probe again, reload back, probe again; generations with an "
+        "unreadable certificate; seeded random walks over verifications / reloads / failed reloads.  Real RSA, real metadata; "
+        "observed per verification: accept/reject AND the certificates handed to the verifier.  non-trivial = every case "
+        "except (issuer key, that entity, no KeyInfo, default flag)")
+TRUSTED = ["xmlsec1 stand-in restricted to --pubkey-cert-pem as invoked by the unmodified CryptoBackendXmlSec1 (a certificate "
+           "file that does not load = non-zero exit, as the binary does)",
            "renderer harness/render.py (incl. independently made detached signatures)",
-           "abstraction certificate fingerprint -> symbolic key"]
+           "abstraction certificate octets -> symbolic key / 'no certificate'",
+           "observation hook on saml2.cryptography.asymmetric.key_verify (records the public key, then calls the original)",
+           "saml2.cryptography.asymmetric.load_pem_private_key memoised on the PEM octets (speed only: every Entity loads "
+           "its key twice)"]
 ASSUMPTIONS = ["ideal signatures (hypotheses verify_spec, sign_inj of C03/Proofs.v); real RSA is executed in the correspondence",
-               "single metadata source (multi-source order is C11)"]
+               "each entity is described by one metadata source (multi-source order is C11)",
+               "metadata changes through Entity.reload_metadata / MetadataStore.reload (MDQ refresh needs a network peer: "
+               "not exercised)"]
 
 KEYS = {"idp": 1, "idp2": 2, "idpenc": 3, "other": 4, "sp": 5, "attacker": 6}
 SIGNERS = ["idp", "idp2", "idpenc", "other", "sp", "attacker"]
@@ -34,189 +61,612 @@ SIG256 = "http://www.w3.org/2001/04/xmldsig-more#rsa-sha256"
 OTHER_SP_ID = "https://other.example.org/sp.xml"
 UNKNOWN_ID = "https://unknown.example.org/entity"
 
-_fp = {}
+# entity ids are named once per case file (a string literal is costly to elaborate)
+ID_NAMES = {world.IDP_ID: "id_idp", world.OTHER_ID: "id_oidp", world.SP_ID: "id_sp", OTHER_SP_ID: "id_osp",
+            UNKNOWN_ID: "id_unk"}
+IMPORTS = IMPORTS_BASE + "".join("\nDefinition %s : string := %s%%string." % (n, cq(i)) for i, n in sorted(ID_NAMES.items()))
 
 
-def fingerprints():
-    if not _fp:
+def cq_id(eid):
+    return ID_NAMES[eid]
+
+
+# receiver kinds: which real object lives, which message kinds it verifies
+RECV_KINDS = {
+    "sp_response": ["response"],
+    "sp_assertion": ["assertion"],
+    "idp": ["authnreq_post", "logoutreq_soap", "redirect"],
+}
+RECV_OF_KIND = {"response": "sp_response", "assertion": "sp_assertion", "authnreq_post": "idp",
+                "logoutreq_soap": "idp", "redirect": "idp"}
+
+
+# ------------------------------------------------------------------------------------ certificates
+def _junk_bodies():
+    """ds:X509Certificate contents that are schema-valid base64Binary but no X.509 certificate."""
+    good = fixtures.cert_b64("idp")
+    j0 = good[:400]                                        # truncated upload: DER cut short
+    rnd = hashlib.sha512(b"c03-junk").digest() * 8
+    j1 = base64.b64encode(rnd[:450]).decode("ascii")       # random octets
+    from cryptography import x509
+    from cryptography.hazmat.primitives import serialization
+
+    with open(fixtures.cert_path("attacker"), "rb") as f:  # a bare SubjectPublicKeyInfo, not a certificate
+        spki = x509.load_pem_x509_certificate(f.read()).public_key().public_bytes(
+            serialization.Encoding.DER, serialization.PublicFormat.SubjectPublicKeyInfo)
+    j2 = base64.b64encode(spki).decode("ascii")
+    return {"J0": j0, "J1": j1, "J2": j2}
+
+
+_bodies = {}
+_by_body = {}
+_by_modulus = {}
+
+
+def bodies():
+    """certificate name -> base64 body; also fills the reverse maps used to abstract observations."""
+    if not _bodies:
         from cryptography import x509
-        from cryptography.hazmat.primitives import serialization
 
-        for n, i in KEYS.items():
+        for n in KEYS:
+            _bodies[n] = fixtures.cert_b64(n)
+            _by_body[_bodies[n]] = ["G", KEYS[n]]
             with open(fixtures.cert_path(n), "rb") as f:
-                der = x509.load_pem_x509_certificate(f.read()).public_bytes(serialization.Encoding.DER)
-            _fp[hashlib.sha1(der).hexdigest()] = i
-    return _fp
+                _by_modulus[x509.load_pem_x509_certificate(f.read()).public_key().public_numbers().n] = KEYS[n]
+        for j, b in _junk_bodies().items():
+            _bodies[j] = b
+            _by_body[b] = ["J", int(j[1:])]
+    return _bodies
+
+
+# KeyDescriptors that carry no certificate text at all
+BLANK_KEYINFO = {
+    "B0": "<ds:X509Data><ds:X509Certificate></ds:X509Certificate></ds:X509Data>",          # empty element
+    "B1": "<ds:X509Data><ds:X509SubjectName>CN=verif</ds:X509SubjectName></ds:X509Data>",  # other X509Data children only
+    "B2": "<ds:KeyName>key-1</ds:KeyName>",                                                # named key only
+}
+
+
+def sym(name):
+    """symbolic certificate of a certificate name: ['G', key number], ['J', junk number] or ['B', blank number]"""
+    if name[0] in "JB" and name[1:].isdigit():
+        return [name[0], int(name[1:])]
+    return ["G", KEYS[name]]
+
+
+def classify_file(path):
+    bodies()
+    try:
+        with open(path, "rb") as f:
+            txt = f.read().decode("ascii", "replace")
+    except Exception:
+        return ["G", 97]
+    body = "".join(l.strip() for l in txt.splitlines() if "-----" not in l)
+    return _by_body.get(body, ["G", 99])
+
+
+# ------------------------------------------------------------------------------------ observation hooks
+HANDED = []
+
+
+class C03Popen:
+    """The stand-in behind saml2.sigver.Popen, with (a) a record of every certificate file named on a
+    --verify command line, made before the stand-in runs, and (b) the process boundary restored: whatever
+    goes wrong inside the binary (e.g. a certificate file that does not load) is a non-zero exit, never a
+    Python exception in the caller (the shared FakePopen lets such exceptions through)."""
+
+    def __init__(self, com_list, stderr=None, stdout=None, **kw):
+        argv = list(com_list[1:])
+        if "--verify" in argv:
+            for i, a in enumerate(argv[:-1]):
+                if a.startswith("--pubkey-cert-") or a == "--pubkey-pem":
+                    HANDED.append(classify_file(argv[i + 1]))
+        try:
+            self.returncode, self._out, self._err = env.standin().main(argv)
+        except Exception as e:  # noqa
+            self.returncode, self._out, self._err = 1, b"", ("Error: %s: %s\n" % (type(e).__name__, e)).encode()
+
+    def communicate(self, *a, **kw):
+        return self._out, self._err
+
+
+def install_hooks():
+    env.install_standin()
+    spaccept.CLOCK.install()
+    bodies()
+    import saml2.algsupport
+    import saml2.cryptography.asymmetric as asym
+    import saml2.sigver
+
+    saml2.sigver.Popen = C03Popen
+    saml2.algsupport.Popen = C03Popen
+    if not getattr(asym.load_pem_private_key, "_c03_hook", False):
+        # every Entity loads its own private key twice (~50 ms each: RSA key validation); the loader is a pure
+        # function of the PEM octets, so the parsed key is shared (speed only, as the stand-in does for its keys)
+        load = asym.load_pem_private_key
+        cache = {}
+
+        def load_pem_private_key(data, password=None):
+            k = (bytes(data) if not isinstance(data, str) else data, password)
+            if k not in cache:
+                cache[k] = load(data, password)
+            return cache[k]
+
+        load_pem_private_key._c03_hook = True
+        asym.load_pem_private_key = load_pem_private_key
+    if not getattr(asym.key_verify, "_c03_hook", False):
+        orig = asym.key_verify
+
+        def key_verify(rsakey, signature, message, digest):
+            try:
+                pub = rsakey.public_key() if hasattr(rsakey, "private_numbers") else rsakey
+                HANDED.append(["G", _by_modulus.get(pub.public_numbers().n, 99)])
+            except Exception:  # noqa
+                HANDED.append(["G", 98])
+            return orig(rsakey, signature, message, digest)
+
+        key_verify._c03_hook = True
+        asym.key_verify = key_verify
+
+
+# ------------------------------------------------------------------------------------ metadata
+def ids_for_recv(recv):
+    """entity ids behind the labels E, O, U as seen by this receiver"""
+    if recv.startswith("sp"):
+        return {"E": world.IDP_ID, "O": world.OTHER_ID, "U": UNKNOWN_ID}
+    return {"E": world.SP_ID, "O": OTHER_SP_ID, "U": UNKNOWN_ID}
 
 
 def ids_for(kind):
-    """(E, O) entity ids as seen by the receiver of this kind of message."""
-    if kind in ("response", "assertion"):
-        return world.IDP_ID, world.OTHER_ID
-    return world.SP_ID, OTHER_SP_ID
+    d = ids_for_recv(RECV_OF_KIND[kind])
+    return d["E"], d["O"]
 
 
-def claimed_id(case):
-    e, o = ids_for(case["kind"])
-    return {"E": e, "O": o, "U": UNKNOWN_ID}[case["claimed"]]
+def ent(label, roles, aa_first=False, merge=False):
+    return {"label": label, "roles": roles, "aa_first": aa_first, "merge": merge}
 
 
-def generate(ctx):
+def G0():
+    return [ent("E", [[["signing", "idp"], ["signing", "idp2"], ["encryption", "idpenc"]]]), ent("O", [[[None, "other"]]])]
+
+
+def _kds(role, merge):
+    """KeyDescriptors of one role descriptor; merge: neighbours with the same use share one KeyDescriptor
+    (several ds:X509Data in one ds:KeyInfo)."""
+    b = bodies()
+    groups = []
+    for use, name in role:
+        if merge and groups and groups[-1][0] == use and name not in BLANK_KEYINFO and groups[-1][1][-1] not in BLANK_KEYINFO:
+            groups[-1][1].append(name)
+        else:
+            groups.append((use, [name]))
+    out = []
+    for use, names in groups:
+        u = ' use="%s"' % use if use else ""
+        out.append("<md:KeyDescriptor%s><ds:KeyInfo>%s</ds:KeyInfo></md:KeyDescriptor>" % (
+            u, "".join(BLANK_KEYINFO[n] if n in BLANK_KEYINFO else
+                       "<ds:X509Data><ds:X509Certificate>%s</ds:X509Certificate></ds:X509Data>" % b[n] for n in names)))
+    return "".join(out)
+
+
+def entity_xml(recv, e):
+    """One md:EntityDescriptor (string template, independent of the pysaml2 classes).  roles[0] is the SSO
+    descriptor of the peer, roles[1] (if any) an AttributeAuthorityDescriptor; MetaData.certs walks spsso, idpsso,
+    ..., attribute_authority, so the walk order is roles[0], roles[1] whatever the document order."""
+    eid = ids_for_recv(recv)[e["label"]]
+    host = eid.split("/")[2]
+    roles = e["roles"]
+    q = world.quoteattr
+    if recv.startswith("sp"):       # the peer is an IdP
+        if e["label"] == "E":
+            sso = [(world.BINDING_HTTP_REDIRECT, world.IDP_SSO_REDIRECT), (world.BINDING_HTTP_POST, world.IDP_SSO_POST)]
+            slo = [(world.BINDING_SOAP, world.IDP_SLO_SOAP), (world.BINDING_HTTP_REDIRECT, world.IDP_SLO_REDIRECT),
+                   (world.BINDING_HTTP_POST, world.IDP_SLO_POST)]
+        else:
+            sso = [(world.BINDING_HTTP_REDIRECT, "https://%s/sso/redirect" % host)]
+            slo = [(world.BINDING_SOAP, "https://%s/slo/soap" % host)]
+        main = "<md:IDPSSODescriptor protocolSupportEnumeration=%s>%s%s%s</md:IDPSSODescriptor>" % (
+            q(world.PROTO), _kds(roles[0], e["merge"]) if roles else "",
+            "".join(world.endpoint("SingleLogoutService", b, l) for b, l in slo),
+            "".join(world.endpoint("SingleSignOnService", b, l) for b, l in sso))
+    else:                           # the peer is an SP
+        if e["label"] == "E":
+            acs = [(world.BINDING_HTTP_POST, world.SP_ACS_POST, 1), (world.BINDING_HTTP_REDIRECT, world.SP_ACS_REDIRECT, 2)]
+            slo = [(world.BINDING_HTTP_REDIRECT, world.SP_SLO_REDIRECT), (world.BINDING_HTTP_POST, world.SP_SLO_POST),
+                   (world.BINDING_SOAP, world.SP_SLO_SOAP)]
+        else:
+            acs = [(world.BINDING_HTTP_POST, "https://%s/acs" % host, 1)]
+            slo = []
+        main = "<md:SPSSODescriptor protocolSupportEnumeration=%s>%s%s%s</md:SPSSODescriptor>" % (
+            q(world.PROTO), _kds(roles[0], e["merge"]) if roles else "",
+            "".join(world.endpoint("SingleLogoutService", b, l) for b, l in slo),
+            "".join(world.endpoint("AssertionConsumerService", b, l, i) for b, l, i in acs))
+    aa = ""
+    if len(roles) > 1:
+        aa = "<md:AttributeAuthorityDescriptor protocolSupportEnumeration=%s>%s%s</md:AttributeAuthorityDescriptor>" % (
+            q(world.PROTO), _kds(roles[1], e["merge"]),
+            world.endpoint("AttributeService", world.BINDING_SOAP, "https://%s/aa/soap" % host))
+    body = aa + main if e["aa_first"] else main + aa
+    return "<md:EntityDescriptor %s entityID=%s>%s</md:EntityDescriptor>" % (world.MD_NS, q(eid), body)
+
+
+def md_xml(recv, md):
+    return [entity_xml(recv, e) for e in md]
+
+
+def coq_cert(c):
+    return "%s %d%%nat" % ({"G": "Gd", "J": "Jk", "B": "Bl"}[c[0]], c[1])
+
+
+def coq_md(recv, md):
+    ids = ids_for_recv(recv)
+    ents = []
+    for e in md:
+        roles = []
+        for role in e["roles"]:
+            roles.append("[%s]" % "; ".join("(%s, %s)" % (
+                {"signing": "Some Signing", "encryption": "Some Encryption", None: "None"}[u], coq_cert(sym(n)))
+                for u, n in role))
+        ents.append("(%s, [%s])" % (cq_id(ids[e["label"]]), "; ".join(roles)))
+    return "[%s]" % "; ".join(ents)
+
+
+# ------------------------------------------------------------------------------------ cases
+def chk(kind, signer, claimed, keyinfo="none", tampered=False):
+    return {"op": "check", "kind": kind, "signer": signer, "claimed": claimed, "keyinfo": keyinfo, "tampered": tampered}
+
+
+def life(recv, only_md, md, ops, part):
+    return {"recv": recv, "only_md": only_md, "md": md, "ops": ops, "part": part}
+
+
+def gen_cells():
+    """(A) the complete product of the property's quantifier, one verification per life"""
     cases = []
     for kind in KINDS:
         for signer in SIGNERS:
             for claimed in CLAIMED:
                 for ki in KEYINFO:
                     for only_md in (True, False):
-                        cases.append({"kind": kind, "signer": signer, "claimed": claimed, "keyinfo": ki,
-                                      "only_md": only_md, "tampered": False})
+                        cases.append(life(RECV_OF_KIND[kind], only_md, G0(), [chk(kind, signer, claimed, ki, False)], "A"))
                         if signer in ("idp", "idp2", "other") and ki in ("none", "signer"):
-                            cases.append({"kind": kind, "signer": signer, "claimed": claimed, "keyinfo": ki,
-                                          "only_md": only_md, "tampered": True})
+                            cases.append(life(RECV_OF_KIND[kind], only_md, G0(), [chk(kind, signer, claimed, ki, True)], "A"))
     return cases
 
 
+ITEMS = [["signing", "idp"], ["encryption", "idp"], [None, "idp2"], ["signing", "sp"], ["signing", "J0"], [None, "J1"],
+         ["encryption", "J0"]]
+SHAPE_SIGNERS = ["idp", "idp2", "sp", "attacker"]
+
+
+def gen_shapes(rng, thorough):
+    """(B) what the claimed issuer publishes: use x key x readable, order, number, role descriptors"""
+    cases = []
+    shapes = [[]] + [[a] for a in ITEMS] + [[a, b] for a in ITEMS for b in ITEMS]
+    for shape in shapes:
+        md = [ent("E", [copy.deepcopy(shape)]), ent("O", [[[None, "other"]]])]
+        nosign = all(u == "encryption" for u, _ in shape)
+        # every entry point for the shapes with <= 1 KeyDescriptor; one entry point per verification path
+        # (Response -> _check_signature, request -> _check_signature, query string) for the pairs
+        for kind in (KINDS if len(shape) < 2 or thorough else ("response", "authnreq_post", "redirect")):
+            for signer in SHAPE_SIGNERS:
+                cases.append(life(RECV_OF_KIND[kind], True, md, [chk(kind, signer, "E")], "B"))
+                if nosign:
+                    cases.append(life(RECV_OF_KIND[kind], False, md, [chk(kind, signer, "E", "signer")], "B"))
+    # KeyDescriptors without certificate: alone, before and after a good key, under every use; with and without
+    # the opt-in fallback (and a certificate embedded in the message)
+    for b in sorted(BLANK_KEYINFO):
+        for use in ("signing", None, "encryption"):
+            for shape in ([[use, b]], [[use, b], ["signing", "idp"]], [["signing", "idp"], [use, b]]):
+                md = [ent("E", [copy.deepcopy(shape)]), ent("O", [[[None, "other"]]])]
+                for kind in ("response", "authnreq_post", "redirect"):
+                    for signer in ("idp", "attacker"):
+                        cases.append(life(RECV_OF_KIND[kind], True, md, [chk(kind, signer, "E")], "B"))
+                        cases.append(life(RECV_OF_KIND[kind], False, md, [chk(kind, signer, "E", "signer")], "B"))
+    more = ITEMS + [["signing", "other"], [None, "J2"], ["signing", "idp2"], [None, "sp"], ["signing", "B0"], [None, "B2"]]
+    combos = [(k, s) for k in ("redirect", "authnreq_post", "response", "logoutreq_soap", "assertion")
+              for s in ("idp", "idp2", "sp", "attacker", "other")]
+    for _ in range(240 if thorough else 60):
+        roles = [[copy.deepcopy(rng.choice(more)) for _ in range(rng.randint(1, 3))] for _ in range(rng.randint(1, 2))]
+        md = [ent("E", roles, aa_first=rng.random() < 0.5, merge=rng.random() < 0.4), ent("O", [[[None, "other"]]])]
+        if rng.random() < 0.3:
+            rng.shuffle(md)
+        for kind, signer in (combos if thorough else rng.sample(combos, 8)):
+            only_md = rng.random() < 0.8
+            cases.append(life(RECV_OF_KIND[kind], only_md, md, [chk(kind, signer, rng.choice(["E", "E", "E", "O"]),
+                                                                  "none" if only_md else "signer")], "B"))
+    return cases
+
+
+def generations():
+    e0 = [["signing", "idp"], ["signing", "idp2"], ["encryption", "idpenc"]]
+    o0 = ent("O", [[[None, "other"]]])
+    return {
+        "g0": [ent("E", [e0]), o0],                                                    # default
+        "g1": [ent("E", [[["signing", "idp2"]]]), o0],                                 # key 1 withdrawn (rotation done)
+        "g2": [o0],                                                                    # issuer removed
+        "g3": [ent("E", [[["encryption", "idp"], ["signing", "idp2"]]]), o0],          # key 1 demoted to encryption-only
+        "g4": [ent("E", [[[None, "other"]]]), ent("O", [[["signing", "idp"]]])],       # keys swapped between two members
+        "g5": [ent("E", [e0]), o0, ent("U", [[["signing", "attacker"]]])],             # unknown issuer joins
+        "g6": [ent("E", [[["signing", "J0"], ["signing", "idp"]]]), o0],               # unreadable certificate first
+        "g7": [ent("E", [[["signing", "idp"], [None, "J1"]]]), o0],                    # unreadable certificate last
+        "g8": [ent("E", [[["signing", "idp"], [None, "B2"]]]), o0],                    # a KeyDescriptor with a KeyName only
+    }
+
+
+# (signer, claimed issuer): every key that some generation binds to some issuer, against the issuers it is / is not bound to
+PROBES = [("idp", "E"), ("idp2", "E"), ("other", "E"), ("attacker", "E"), ("other", "O"), ("idp", "O"),
+          ("attacker", "U"), ("idp", "U")]
+SEQ_RECV = [("sp_response", ["response"]), ("idp", ["authnreq_post", "logoutreq_soap", "redirect"]),
+            ("sp_assertion", ["assertion"]), ("idp", ["authnreq_post"]), ("idp", ["logoutreq_soap"]), ("idp", ["redirect"])]
+
+
+def probes(kinds, start, keyinfo):
+    return [chk(kinds[(start + i) % len(kinds)], signer, claimed, keyinfo) for i, (signer, claimed) in enumerate(PROBES)]
+
+
+def gen_lives(rng, thorough):
+    """(C) a long-lived receiver whose metadata changes between verifications"""
+    cases = []
+    gens = generations()
+    core = ["g0", "g1", "g2", "g3", "g4", "g5"]
+    pairs = [(a, b) for a in core for b in core if a != b] + [("g0", "g6"), ("g6", "g0"), ("g1", "g7"), ("g7", "g2"), ("g6", "g7")]
+    n = 0
+    for ri, (recv, kinds) in enumerate(SEQ_RECV):
+        for a, b in pairs:
+            if ri >= 2 and not thorough and "g0" not in (a, b):
+                continue        # quick tier: the single-kind receivers see the pairs that involve the default generation
+            n += 1
+            via = ("entity", "store")[n % 2]
+            ops = probes(kinds, n, "none") + [{"op": "reload", "md": gens[b], "via": via}] + probes(kinds, n + 1, "none")
+            ops += [{"op": "reload", "md": gens[a], "via": via}, {"op": "reload_bad", "how": ("xml", "type")[n % 2]}]
+            ops += probes(kinds, n + 2, "none")
+            cases.append(life(recv, True, gens[a], ops, "C"))
+        # the opt-in fallback over reloads: embedded certificate usable only while metadata has no key for the issuer
+        for a, b in (("g2", "g0"), ("g0", "g2"), ("g2", "g5"), ("g5", "g1")):
+            if ri >= 3 and not thorough:
+                continue
+            ops = probes(kinds, 0, "signer") + [{"op": "reload", "md": gens[b], "via": "entity"}] + probes(kinds, 1, "signer")
+            cases.append(life(recv, False, gens[a], ops, "C"))
+    names = sorted(gens)
+    for i in range(400 if thorough else 120):
+        recv, kinds = SEQ_RECV[rng.randrange(len(SEQ_RECV))]
+        only_md = rng.random() < 0.75
+        ops = []
+        for _ in range(rng.randint(6, 14)):
+            r = rng.random()
+            if r < 0.68:
+                ops.append(chk(rng.choice(kinds), rng.choice(SIGNERS), rng.choice(CLAIMED),
+                               rng.choice(["none", "none", "signer", "victim", "rsa"]), rng.random() < 0.1))
+            elif r < 0.92:
+                ops.append({"op": "reload", "md": gens[rng.choice(names)], "via": rng.choice(["entity", "store"])})
+            else:
+                ops.append({"op": "reload_bad", "how": rng.choice(["xml", "type"])})
+        if not any(o["op"] == "check" for o in ops):
+            ops.append(chk(kinds[0], "idp", "E"))
+        cases.append(life(recv, only_md, gens[rng.choice(names)], ops, "C"))
+    return cases
+
+
+def generate(ctx):
+    return gen_cells() + gen_shapes(ctx.rng, ctx.thorough) + gen_lives(ctx.rng, ctx.thorough)
+
+
+# ------------------------------------------------------------------------------------ running the real code
 _rcv = {}
 
 
-def receiver(kind, only_md):
-    env.install_standin()
-    spaccept.CLOCK.install()
-    key = (kind in ("response", "assertion"), kind, only_md)
-    if key in _rcv:
-        return _rcv[key]
-    if kind in ("response", "assertion"):
-        over = {"only_use_keys_in_metadata": only_md}
-        if kind == "assertion":
+def make_receiver(recv, only_md, md):
+    xml = md_xml(recv, md)
+    if recv.startswith("sp"):
+        over = {"only_use_keys_in_metadata": only_md, "metadata_xml": xml}
+        if recv == "sp_assertion":
             over["sp_want_response_signed"] = False
             over["sp_want_assertions_signed"] = True
-        r = world.make_sp(**over)
-    else:
-        md = [world.sp_descriptor(world.SP_ID, [("idp", "signing"), ("idp2", "signing"), ("idpenc", "encryption")]),
-              world.sp_descriptor(OTHER_SP_ID, [("other", None)],
-                                  acs=[(world.BINDING_HTTP_POST, "https://other.example.org/acs", 1)], slo=[])]
-        r = world.make_idp(metadata_xml=md, only_use_keys_in_metadata=only_md, key_file=fixtures.key_path("sp"),
-                           cert_file=fixtures.cert_path("sp"), idp_want_authn_requests_signed=True)
-    _rcv[key] = r
+        return world.make_sp(**over)
+    return world.make_idp(metadata_xml=xml, only_use_keys_in_metadata=only_md, key_file=fixtures.key_path("sp"),
+                          cert_file=fixtures.cert_path("sp"), idp_want_authn_requests_signed=True)
+
+
+def receiver(case):
+    """A life without reloads leaves no trace in the receiver: such receivers are shared between cases (as
+    before); a life with reloads gets a receiver of its own."""
+    if any(o["op"] != "check" for o in case["ops"]):
+        return make_receiver(case["recv"], case["only_md"], case["md"])
+    key = json.dumps([case["recv"], case["only_md"], case["md"]], sort_keys=True)
+    r = _rcv.get(key)
+    if r is None:
+        if len(_rcv) > 64:
+            _rcv.clear()
+        r = _rcv[key] = make_receiver(case["recv"], case["only_md"], case["md"])
     return r
 
 
-def keyinfo_for(case):
-    ki = case["keyinfo"]
+def keyinfo_for(c):
+    ki = c["keyinfo"]
     if ki == "none":
         return None
     if ki == "signer":
-        return ("x509", case["signer"])
+        return ("x509", c["signer"])
     if ki == "victim":
         return ("x509", "idp")
-    return ("rsa", case["signer"])
+    return ("rsa", c["signer"])
 
 
-def observe(case):
-    kind = case["kind"]
-    rcv = receiver(kind, case["only_md"])
-    issuer = claimed_id(case)
-    ki = keyinfo_for(case)
-    m = env.standin()
+_msg = {}
+
+
+def message(recv, c):
+    """The signed message of one verification (rendered and signed independently of pysaml2; memoised: the
+    same octets may be presented many times in one life)."""
+    key = (recv, c["kind"], c["signer"], c["claimed"], c["keyinfo"], bool(c["tampered"]))
+    if key in _msg:
+        return _msg[key]
+    kind = c["kind"]
+    issuer = ids_for_recv(recv)[c["claimed"]]
+    ki = keyinfo_for(c)
+    if kind in ("response", "assertion"):
+        a = spaccept.good_assertion(issuer=issuer)
+        r = spaccept.good_response(issuer=issuer)
+        if kind == "response":
+            xml = spaccept.build(r, [a], sign_response=c["signer"], keyinfo=ki)
+        else:
+            xml = spaccept.build(r, [a], sign_response=None, sign_assertions=[c["signer"]], keyinfo=ki)
+        if c["tampered"]:
+            xml = render.tamper_text(xml, "subject-1", "subject-2")
+        out = ("xml", xml)
+    else:
+        q = {"id": "q-1", "issue_instant": env.iso(spaccept.NOW), "issuer": issuer}
+        if kind == "authnreq_post":
+            q.update(destination=world.IDP_SSO_POST, acs_url=world.SP_ACS_POST, protocol_binding=world.BINDING_HTTP_POST)
+            q["sig_template"] = render.signature_template("q-1", ki)
+            xml = render.sign_xml(render.request("AuthnRequest", q), c["signer"], render.ELEM["AuthnRequest"], "q-1")
+            if c["tampered"]:
+                xml = render.tamper_text(xml, "acs/post", "acs/pos2")
+            out = ("xml", xml)
+        elif kind == "logoutreq_soap":
+            q.update(destination=world.IDP_SLO_SOAP)
+            q["sig_template"] = render.signature_template("q-1", ki)
+            xml = render.sign_xml(render.request("LogoutRequest", q), c["signer"], render.ELEM["LogoutRequest"], "q-1")
+            if c["tampered"]:
+                xml = render.tamper_text(xml, "subject-1", "subject-2")
+            out = ("xml", xml)
+        else:
+            q.update(destination=world.IDP_SSO_REDIRECT, acs_url=world.SP_ACS_POST, protocol_binding=world.BINDING_HTTP_POST)
+            enc = render.deflate_b64(render.request("AuthnRequest", q))
+            sig = render.detached_signature(c["signer"], enc, "rs-1", SIG256)
+            out = ("redirect", enc, sig, "rs-2" if c["tampered"] else "rs-1")
+    _msg[key] = out
+    return out
+
+
+def run_check(rcv, recv, c):
+    kind = c["kind"]
+    msg = message(recv, c)
     accepted = False
     exc = None
+    del HANDED[:]
     if kind in ("response", "assertion"):
         from saml2.population import Population
 
         rcv.users = Population()
-        a = spaccept.good_assertion(issuer=issuer)
-        r = spaccept.good_response(issuer=issuer)
-        if kind == "response":
-            xml = spaccept.build(r, [a], sign_response=case["signer"], keyinfo=ki)
-        else:
-            xml = spaccept.build(r, [a], sign_response=None, sign_assertions=[case["signer"]], keyinfo=ki)
-        if case["tampered"]:
-            xml = render.tamper_text(xml, "subject-1", "subject-2")
-        del m.LOG[:]
-        o = spaccept.observe(rcv, xml, world.BINDING_HTTP_POST, {"req-1": "/"})
+        o = spaccept.observe(rcv, msg[1], world.BINDING_HTTP_POST, {"req-1": "/"})
         accepted, exc = o["identity"], o["exc"]
     else:
-        q = {"id": "q-1", "issue_instant": env.iso(spaccept.NOW), "issuer": issuer}
-        relay = "rs-1"
         try:
             if kind == "authnreq_post":
-                q.update(destination=world.IDP_SSO_POST, acs_url=world.SP_ACS_POST, protocol_binding=world.BINDING_HTTP_POST)
-                q["sig_template"] = render.signature_template("q-1", ki)
-                xml = render.sign_xml(render.request("AuthnRequest", q), case["signer"], render.ELEM["AuthnRequest"], "q-1")
-                if case["tampered"]:
-                    xml = render.tamper_text(xml, "acs/post", "acs/pos2")
-                del m.LOG[:]
-                res = rcv.parse_authn_request(render.b64(xml), world.BINDING_HTTP_POST)
+                res = rcv.parse_authn_request(render.b64(msg[1]), world.BINDING_HTTP_POST)
             elif kind == "logoutreq_soap":
-                q.update(destination=world.IDP_SLO_SOAP)
-                q["sig_template"] = render.signature_template("q-1", ki)
-                xml = render.sign_xml(render.request("LogoutRequest", q), case["signer"], render.ELEM["LogoutRequest"], "q-1")
-                if case["tampered"]:
-                    xml = render.tamper_text(xml, "subject-1", "subject-2")
-                del m.LOG[:]
-                res = rcv.parse_logout_request(render.soap_envelope(xml), world.BINDING_SOAP)
+                res = rcv.parse_logout_request(render.soap_envelope(msg[1]), world.BINDING_SOAP)
             else:
-                q.update(destination=world.IDP_SSO_REDIRECT, acs_url=world.SP_ACS_POST,
-                         protocol_binding=world.BINDING_HTTP_POST)
-                xml = render.request("AuthnRequest", q)
-                enc = render.deflate_b64(xml)
-                sig = render.detached_signature(case["signer"], enc, relay, SIG256)
-                if case["tampered"]:
-                    relay = "rs-2"
-                del m.LOG[:]
-                res = rcv.parse_authn_request(enc, world.BINDING_HTTP_REDIRECT, relay_state=relay, sigalg=SIG256,
-                                              signature=sig)
+                res = rcv.parse_authn_request(msg[1], world.BINDING_HTTP_REDIRECT, relay_state=msg[3], sigalg=SIG256,
+                                              signature=msg[2])
             accepted = res is not None and getattr(res, "message", None) is not None
         except Exception as e:  # noqa
             exc = type(e).__name__
-    handed = []
-    fps = fingerprints()
-    for ent in m.LOG:
-        if ent.get("op") == "verify":
-            k = ent.get("key") or ""
-            handed.append(fps.get(k.split(":", 1)[1], 99) if k.startswith("file:") else 98)
-    return {"accept": bool(accepted), "handed": handed, "exc": exc}
+    return {"accept": bool(accepted), "handed": [list(h) for h in HANDED], "exc": exc}
 
 
-MD_COQ = None
+def observe(case):
+    install_hooks()
+    rcv = receiver(case)
+    install_hooks()     # world.make_* re-installs the plain stand-in
+    recv = case["recv"]
+    steps = []
+    for o in case["ops"]:
+        if o["op"] == "check":
+            steps.append(run_check(rcv, recv, o))
+        elif o["op"] == "reload":
+            conf = {"inline": md_xml(recv, o["md"])}
+            try:
+                if o["via"] == "entity":
+                    ok = bool(rcv.reload_metadata(conf))
+                else:
+                    rcv.metadata.reload(conf)
+                    ok = True
+            except Exception as e:  # noqa
+                ok = type(e).__name__
+            steps.append({"reload": ok})
+        else:
+            conf = {"inline": ["<md:EntityDescriptor"]} if o["how"] == "xml" else {"nosuchtype": ["x"]}
+            try:
+                ok = bool(rcv.reload_metadata(conf))
+            except Exception as e:  # noqa
+                ok = type(e).__name__
+            steps.append({"reload": ok})
+    return {"steps": steps}
 
 
-def coq_md(kind):
-    e, o = ids_for(kind)
-    return ("[(%s, [[(Some Signing, 1%%nat); (Some Signing, 2%%nat); (Some Encryption, 3%%nat)]]); "
-            "(%s, [[(None, 4%%nat)]])]" % (cq(e), cq(o)))
-
-
-def coq_case(case, obs):
-    detached = case["kind"] == "redirect"
-    ki = case["keyinfo"]
+# ------------------------------------------------------------------------------------ Coq terms
+def coq_check(recv, c):
+    detached = c["kind"] == "redirect"
+    ki = c["keyinfo"]
     if detached or ki in ("none", "rsa"):
         emb = []
     elif ki == "signer":
-        emb = [KEYS[case["signer"]]]
+        emb = [["G", KEYS[c["signer"]]]]
     else:
-        emb = [1]
-    return "C03.Corr.mk %s %s (Some %s) [%s] %s %d%%nat %s (%s, [%s])" % (
-        coq_md(case["kind"]), cq(bool(case["only_md"])), cq(claimed_id(case)), "; ".join("%d%%nat" % i for i in emb),
-        cq(detached), KEYS[case["signer"]], cq(bool(case["tampered"])), cq(bool(obs["accept"])),
-        "; ".join("%d%%nat" % i for i in obs["handed"]))
+        emb = [["G", 1]]
+    return "ck (Some %s) [%s] %s %d%%nat %s" % (
+        cq_id(ids_for_recv(recv)[c["claimed"]]), "; ".join(coq_cert(x) for x in emb), cq(detached), KEYS[c["signer"]],
+        cq(bool(c["tampered"])))
+
+
+def coq_out(st):
+    return "(%s, [%s])" % (cq(bool(st["accept"])), "; ".join(coq_cert(h) for h in st["handed"]))
+
+
+def coq_case(case, obs):
+    recv = case["recv"]
+    ops, outs = [], []
+    for o, st in zip(case["ops"], obs["steps"]):
+        if o["op"] == "check":
+            ops.append(coq_check(recv, o))
+            outs.append(coq_out(st))
+        elif o["op"] == "reload":
+            # a reload of well-formed metadata is a Reload in the model whatever the real call answered: a
+            # refused reload then shows as a disagreement / failure of the following verifications
+            ops.append("Reload (%s)" % coq_md(recv, o["md"]))
+        else:
+            ops.append("ReloadFailed")
+    return "C03.Corr.mkseq (%s) %s [%s] [%s]" % (coq_md(recv, case["md"]), cq(bool(case["only_md"])), "; ".join(ops),
+                                               "; ".join(outs))
 
 
 def nontrivial(case, obs):
-    key = (case["kind"], case["signer"], case["claimed"], case["keyinfo"], case["only_md"], case["tampered"])
-    if key[1:] == ("idp", "E", "none", True, False):
-        return None
-    return key
+    if case["part"] == "A":
+        c = case["ops"][0]
+        key = (c["kind"], c["signer"], c["claimed"], c["keyinfo"], case["only_md"], c["tampered"])
+        if key[1:] == ("idp", "E", "none", True, False):
+            return None
+        return key
+    return (case["part"], hashlib.sha1(json.dumps(case, sort_keys=True).encode()).hexdigest()[:16])
 
 
 def histogram(cases, observed):
-    h = {"by_kind": {}, "accepted": 0, "rejected": 0, "exceptions": {}, "handed_lengths": {}}
+    h = {"by_part": {}, "by_recv": {}, "verifications": 0, "reloads": 0, "failed_reloads": 0, "reloads_refused": 0,
+         "accepted": 0, "rejected": 0, "exceptions": {}, "handed_lengths": {}, "unreadable_handed": 0,
+         "ops_per_life": {}}
     for c, o in zip(cases, observed):
-        h["by_kind"][c["kind"]] = h["by_kind"].get(c["kind"], 0) + 1
-        h["accepted" if o["accept"] else "rejected"] += 1
-        h["handed_lengths"][str(len(o["handed"]))] = h["handed_lengths"].get(str(len(o["handed"])), 0) + 1
-        if o["exc"]:
-            h["exceptions"][o["exc"]] = h["exceptions"].get(o["exc"], 0) + 1
+        h["by_part"][c["part"]] = h["by_part"].get(c["part"], 0) + 1
+        h["by_recv"][c["recv"]] = h["by_recv"].get(c["recv"], 0) + 1
+        n = str(len(c["ops"]))
+        h["ops_per_life"][n] = h["ops_per_life"].get(n, 0) + 1
+        for op, st in zip(c["ops"], o["steps"]):
+            if op["op"] == "reload":
+                h["reloads"] += 1
+                if st["reload"] is not True:
+                    h["reloads_refused"] += 1
+            elif op["op"] == "reload_bad":
+                h["failed_reloads"] += 1
+            else:
+                h["verifications"] += 1
+                h["accepted" if st["accept"] else "rejected"] += 1
+                k = str(len(st["handed"]))
+                h["handed_lengths"][k] = h["handed_lengths"].get(k, 0) + 1
+                h["unreadable_handed"] += sum(1 for x in st["handed"] if x[0] == "J")
+                if st["exc"]:
+                    h["exceptions"][st["exc"]] = h["exceptions"].get(st["exc"], 0) + 1
     return h
 
 
